@@ -10,6 +10,7 @@ import (
 	"strings"
 	"sync"
 	"testing"
+	"time"
 
 	"github.com/hashicorp/nodeenrollment"
 	"github.com/hashicorp/nodeenrollment/protocol"
@@ -59,7 +60,10 @@ func genState(t *rapid.T) (string, *structpb.Struct) {
 func TestProp_Metadata(t *testing.T) {
 	rec := vkit.Rec(prop)
 	vkit.SetRapidChecks(vkit.N(150))
-	w := vkit.NewWorld(vkit.WorldConfig{})
+	// a server whose two roots are both valid (lifetime 2h, not-before skew -90m: the next
+	// root is valid from the start), so that the node holds two valid chains and
+	// ClientConfigs returns two configurations
+	w := vkit.NewWorld(vkit.WorldConfig{RootOpts: []nodeenrollment.Option{nodeenrollment.WithCertificateLifetime(2 * time.Hour), nodeenrollment.WithNotBeforeClockSkew(-90 * time.Minute)}})
 	defer w.Close()
 	plainRig := vkit.NewRig(w, vkit.RigConfig{})
 	defer plainRig.Close()
@@ -120,6 +124,25 @@ func TestProp_Metadata(t *testing.T) {
 				vkit.Violate(t, prop, "C16/client-configs-failed", fmt.Sprintf("ClientConfigs failed: %v", cerr), nil)
 				return
 			}
+			// every configuration offers the request chunks, the node's protocols exactly as
+			// supplied, and one certificate-preference entry
+			for i, cfg := range cfgs {
+				var own []string
+				for _, p := range cfg.NextProtos {
+					if !strings.HasPrefix(p, nodeenrollment.AuthenticateNodeNextProtoV1Prefix) && !strings.HasPrefix(p, nodeenrollment.CertificatePreferenceV1Prefix) {
+						own = append(own, p)
+					}
+				}
+				if fmt.Sprint(own) != fmt.Sprint(extras) {
+					vkit.Violate(t, prop, "C16/client-config-offers-other-protocols", fmt.Sprintf("client configuration %d of %d offers the application protocols %v, the node supplied %v", i+1, len(cfgs), shorten(own), shorten(extras)), map[string]any{"extras": shorten(extras), "configurations": len(cfgs)})
+					return
+				}
+			}
+			// either of the configurations may be the one that gets used
+			if ci := rapid.IntRange(0, len(cfgs)-1).Draw(t, "whichClientConfig"); ci > 0 {
+				cfgs[0] = cfgs[ci]
+			}
+			rec.Count(fmt.Sprintf("client_configs_returned_%d", len(cfgs)), 1)
 			// a node may add protocols of its own to the configuration it got from
 			// ClientConfigs, or order them differently: the certificate-preference entry is
 			// then not the last one
